@@ -656,8 +656,31 @@ fn exhaustive(ctx: &mut Ctx, shard: usize, nshards: usize) -> Verdict {
             }
         }
     }
+    // every byte value inside a regular field name and inside a value (found by the fz_fields libFuzzer target: the
+    // generator's name alphabets had no double quote)
+    for b in 0..=255u8 {
+        if (b as usize) % nshards != shard {
+            continue;
+        }
+        for (kind, base) in [(MsgKind::Request, bases()[0].1.clone()), (MsgKind::Response, bases()[4].1.clone()), (MsgKind::Trailers, bases()[6].1.clone())] {
+            for pos in 0..3 {
+                let mut fl = base.clone();
+                let mut name = b"xab".to_vec();
+                name.insert(pos.min(name.len()), b);
+                fl.push((name, b"v".to_vec()));
+                let lab = if matches!(rfl::judge(kind, &fl), Judgement::MustReject(_)) { 1 } else { 0 };
+                check_unit(kind, &fl, lab, ctx)?;
+                let mut fl = base.clone();
+                let mut val = b"val".to_vec();
+                val.insert(pos, b);
+                fl.push((b"x-v".to_vec(), val));
+                check_unit(kind, &fl, 0, ctx)?;
+            }
+        }
+    }
     let _ = n;
     if shard == 0 {
+        ctx.subspace("every byte value at three positions of a regular field name and of a value, in a request, a response and trailers", 256 * 18);
         ctx.subspace("every single catalogue mutation x every field position of the 8 base messages, unit level and API level (both roles for trailers)", idx as u64);
     }
     Ok(())
@@ -738,4 +761,24 @@ fn run_direct(d: &Value, ctx: &mut Ctx) -> Verdict {
         Some("api") => check_api(kind, d["server"].as_bool().unwrap_or(true), &fl, d["spell"].as_u64().unwrap_or(0) as usize, ctx),
         _ => Err(Failure::fault("unknown direct case")),
     }
+}
+
+/// libFuzzer entry: first byte = message kind, then fields as (name length, name, value length, value)
+pub fn fuzz_bytes(data: &[u8], ctx: &mut Ctx) -> Verdict {
+    let Some((sel, mut b)) = data.split_first() else { return Ok(()) };
+    let kind = [MsgKind::Request, MsgKind::Response, MsgKind::Trailers][(*sel % 3) as usize];
+    let mut fields: Vec<Field> = Vec::new();
+    while let Some((nl, rest)) = b.split_first() {
+        let nl = (*nl as usize % 24).min(rest.len());
+        let (n, rest) = rest.split_at(nl);
+        let Some((vl, rest)) = rest.split_first() else { break };
+        let vl = (*vl as usize % 32).min(rest.len());
+        let (v, rest) = rest.split_at(vl);
+        fields.push((n.to_vec(), v.to_vec()));
+        b = rest;
+        if fields.len() >= 12 {
+            break;
+        }
+    }
+    check_unit(kind, &fields, 0, ctx)
 }
